@@ -42,6 +42,7 @@ static int print_tlv(KSI_TLV *t) {   /* consumes a shape from sp; returns 0 ok *
 	return 3;
 }
 
+static int retry_accepted;
 static int print_el(KSI_TlvElement *e) {
 	while (*sp == ' ') sp++;
 	if (*sp == 'r') {
@@ -53,7 +54,11 @@ static int print_el(KSI_TlvElement *e) {
 		sp++;
 		rc = KSI_TlvElement_getElement(e, 0x1ffe, &dummy);    /* forces the expansion of the payload into sub-elements */
 		KSI_TlvElement_free(dummy);
-		if (rc != KSI_OK) return 1;
+		if (rc != KSI_OK) {      /* whether a payload tiles is a property of its bytes, not of how often one asks: a second look must be refused as well */
+			KSI_TlvElement *d2 = NULL; int rc2 = KSI_TlvElement_getElement(e, 0x1ffe, &d2); KSI_TlvElement_free(d2);
+			if (rc2 == KSI_OK) retry_accepted++;
+			return 1;
+		}
 		n = KSI_TlvElementList_length(e->subList);
 		printf("[%u,%d,%d,(", e->ftlv.tag, e->ftlv.is_nc ? 1 : 0, e->ftlv.is_fwd ? 1 : 0);
 		for (i = 0; i < n; i++) { KSI_TlvElement *c = NULL; KSI_TlvElementList_elementAt(e->subList, i, &c); while (*sp == ' ') sp++; if (*sp == ')') return 2; if (print_el(c)) return 1; }
@@ -107,7 +112,8 @@ int main(void) {
 				printf("E rc=%d", rc);
 				if (rc == KSI_OK) {
 					unsigned char *buf; size_t sl = 0; int r2;
-					printf(" tree="); r2 = print_el(e); printf(" exp=%d", r2);
+					retry_accepted = 0;
+					printf(" tree="); r2 = print_el(e); printf(" exp=%d retry=%d", r2, retry_accepted);
 					buf = H_MALLOC(len + 8);
 					if (KSI_TlvElement_serialize(e, buf, len + 8, &sl, 0) == KSI_OK) { printf(" ser="); hx_print(buf, sl); } else printf(" ser=ERR");
 					free(buf);
